@@ -458,7 +458,13 @@ class Interp:
             raise Panic(m.group(3))
         m = re.fullmatch(r'drop\((.*)\) -> \[return: (bb\d+), .*\];', ln)
         if not m: m = re.fullmatch(r'drop\((.*)\) -> (bb\d+);', ln)
-        if m: return m.group(2)
+        if m:
+            try: v = s.place(f, frame, m.group(1)).get()
+            except Exception: v = None
+            if isinstance(v, Agg) and v.ty in ('Ref', 'RefMut'):
+                rcv = v.f[1].get()
+                rcv.f[1] = rcv.f[1] - 1 if v.ty == 'Ref' else 0
+            return m.group(2)
         # call
         m = re.fullmatch(r'(.*?) = (.*\)) -> \[return: (bb\d+), unwind.*\];', ln)
         if m and not m.group(2).startswith(('copy', 'move', 'const', '&')):
@@ -541,8 +547,22 @@ class Interp:
             return Agg(re.sub(r'::<.*', '', m.group(1)), None, fields)
         raise Unsupported('rvalue ' + rv)
 
+    def place_ty(s, f, p):
+        p = p.strip()
+        if re.fullmatch(r'_\d+', p): return f.locals.get(p)
+        if p.startswith('(*') and p.endswith(')'):
+            t = s.place_ty(f, p[2:-1])
+            return re.sub(r"^&(?:'\w+ )?(?:mut )?", '', t) if t else None
+        m = re.fullmatch(r'\(.*: ([^()]+)\)', p)
+        if m: return m.group(1)
+        return None
+
     def operand_ty(s, f, o):
         o = o.strip()
+        m = re.fullmatch(r'(?:no_retag )?(?:copy|move) (.*)', o)
+        if m:
+            t = s.place_ty(f, m.group(1))
+            if t in INT_TYPES: return t
         m = re.fullmatch(r'(?:copy|move) (_\d+)', o)
         if m: return f.locals.get(m.group(1))
         m = re.fullmatch(r"const '.*'", o)
@@ -611,6 +631,25 @@ class Interp:
         if c == 'Vec::<Token>::new': return []
         if c == 'Vec::<Token>::push': a[0].get().append(a[1]); return UNIT
         if c in ('<char as Into<String>>::into', '<&str as Into<String>>::into'): return ('String', a[0])
+        m = re.fullmatch(r'RefCell::<.*>::(borrow|borrow_mut)', c)
+        if m:
+            cell = a[0]                     # Ref to Agg('RefCell', [value, flag])
+            rcv = cell.get()
+            if m.group(1) == 'borrow':
+                if rcv.f[1] < 0: raise Panic('already mutably borrowed')
+                rcv.f[1] += 1
+                return Agg('Ref', None, [Ref(cell.box, cell.path + (0,)), cell])
+            if rcv.f[1] != 0: raise Panic('already borrowed')
+            rcv.f[1] = -1
+            return Agg('RefMut', None, [Ref(cell.box, cell.path + (0,)), cell])
+        if re.fullmatch(r"<Ref(Mut)?<.*> as Deref(Mut)?>::deref(_mut)?", c):
+            return a[0].get().f[0]
+        m = re.fullmatch(r'Option::<&.*>::cloned', c)
+        if m: return NONE() if a[0].var == 0 else mk_some(s.clone(a[0].f[0].get()))
+        m = re.fullmatch(r'Option::<.*>::(is_some|is_none)', c)
+        if m:
+            o = a[0].get() if isinstance(a[0], Ref) else a[0]
+            return (o.var == 1) == (m.group(1) == 'is_some')
         m = re.fullmatch(r'(Option|Result)::<.*>::(expect|unwrap)', c)
         if m:
             ok = 1 if m.group(1) == 'Option' else 0
@@ -619,7 +658,23 @@ class Interp:
         if re.fullmatch(r"<T as Into<Cow<VCell>>>::into|<&VCell as Into<Cow<VCell>>>::into", c.replace("'_, ", '')):
             return Agg('Cow', 0, [a[0]]) if isinstance(a[0], Ref) else Agg('Cow', 1, [a[0]])
         if re.fullmatch(r'<T as Into<VCell>>::into|<VCell as Into<VCell>>::into', c): return a[0]
-        if re.fullmatch(r'<.* as ToString>::to_string|format|alloc::fmt::format', c): return ('String', 'opaque')
+        if re.fullmatch(r'<.* as ToString>::to_string|format|alloc::fmt::format|must_use::<String>', c): return ('String', 'opaque')
+        if c.startswith('core::fmt::rt::Argument::') or c.startswith('Arguments::'): return ('opaque', 'fmt')
+        m = re.fullmatch(r'<(i64|i32|u64|usize|u32) as ToPrimitive>::to_(usize|u64|i64|u32|i32)', c)
+        if m:
+            v = a[0].get() if isinstance(a[0], Ref) else a[0]
+            sw, ssig = INT_TYPES[m.group(1)]; dw, dsig = INT_TYPES[m.group(2)]
+            lo, hi = (-(1 << (dw - 1)), (1 << (dw - 1)) - 1) if dsig else (0, (1 << dw) - 1)
+            if not is_sym(v):
+                return mk_some(v) if lo <= v <= hi else NONE()
+            fits = z3.BoolVal(True)
+            if ssig:
+                if lo > -(1 << (sw - 1)): fits = z3.And(fits, v >= lo)
+                if hi < (1 << (sw - 1)) - 1: fits = z3.And(fits, v <= hi)
+            else:
+                if hi < (1 << sw) - 1: fits = z3.And(fits, z3.ULE(v, hi))
+            if s.branch(z3.simplify(fits)): return mk_some(s.resize(v, dw) if dw <= sw else (z3.SignExt(dw - sw, v) if ssig else z3.ZeroExt(dw - sw, v)))
+            return NONE()
         if c == '<std::ops::Range<usize> as Iterator>::rev': return Agg('Rev', None, [a[0]])
         if c == '<Rev<std::ops::Range<usize>> as IntoIterator>::into_iter': return a[0]
         if c == '<Rev<std::ops::Range<usize>> as Iterator>::next':
